@@ -133,6 +133,14 @@ class Matcher:
                 rl = r.target
                 if rl is not None:
                     rl = rl.split('.')[0]
+                if rl != wl and r.result is not None and self.g.rthis is not None and \
+                        not any(fd['name'] == rl for fd in self.g.record.fields):
+                    # constructed into a local container that is handed over to a member at the end:
+                    # the sub-object belongs to the member its value flows into
+                    flows = [fd['name'] for fd in self.g.record.fields
+                             if T.occurs(fld(self.g.rthis, fd['name']), r.result)]
+                    if len(flows) == 1:
+                        rl = flows[0]
                 if w.cls != r.cls or wl != rl:
                     ctx.violation('i.sequence', self.site(w), 'sub-object order differs: writer %s of %s, '
                                   'reader %s of %s' % (wl, w.cls, rl, r.cls))
